@@ -23,6 +23,8 @@ Section Fast.
   Variable M : matcher.
   Hypothesis Hbin : c_binary cfg = BNone.
   Variable s : bytes.
+  Variable A base : nat.        (* the buffer is a window of a stream: see Proofs/SlowPathProofs.v *)
+  Variable bflag : bool.
   Notation ltb := (lt_byte (c_lt cfg)).
   Notation K := (fun _ : nat => Continue).
   Notation gstep := (g_step cfg (m_is_match M)).
@@ -105,69 +107,91 @@ Section Fast.
   Hypothesis Hnoinv : c_invert cfg = false.
   Hypothesis Hnopt : c_passthru cfg = false.
 
-  Notation kslow := (fun c => match_by_line_slow cfg M K true c s).
+  Notation kslow := (fun c => match_by_line_slow cfg M K bflag c s).
 
   Lemma nonsuccess_of_pmatch l : pmatch l = false -> nonsuccess cfg M l.
   Proof. unfold nonsuccess, pmatch. intros ->. rewrite Hnoinv. reflexivity. Qed.
 
-  Lemma fold_app {A B} (f : A -> B -> A) l1 l2 a : fold_left f (l1 ++ l2) a = fold_left f l2 (fold_left f l1 a).
+  Lemma fold_app {X Y} (f : X -> Y -> X) l1 l2 a : fold_left f (l1 ++ l2) a = fold_left f l2 (fold_left f l1 a).
   Proof. apply fold_left_app. Qed.
+
+  (* no after-context is owed over an empty range *)
+  Lemma after_ctx_empty c g p : R0 cfg s A base c g -> g_off g = A + p ->
+    after_context_by_line cfg K bflag c s p = OK true c.
+  Proof.
+    intros HR Hoff. pose proof HR as [Rabs Rbin Rlog Rafter Rsunk Rlaid Rllv Rllc Rln Rlnum Rap Rale].
+    unfold after_context_by_line.
+    destruct (Nat.eqb_spec (after_context_left c) 0) as [E0|E0]; [reflexivity|].
+    assert (Hllv : last_line_visited c = p).
+    { assert (1 <= g_after g) by lia. rewrite (Rap H) in Rllv. cbn in Rllv. lia. }
+    cbn [after_loop]. unfold ltb_. rewrite line_step_end by lia. reflexivity.
+  Qed.
+
+  (* the scan position is at the end of the buffer: nothing happens *)
+  Lemma at_end_post c g : R cfg s A base c g -> g_off g = A + length s -> g_stopped g = false ->
+    mbl_post cfg s A base [] true (set_pos c (length s)) g.
+  Proof.
+    intros HR Hoff Hns. pose proof (R_tailok cfg s A base c g HR) as Htl.
+    destruct HR as (Rpos & Rmatched & HR0).
+    pose proof HR0 as [Rabs Rbin Rlog Rafter Rsunk Rlaid Rllv Rllc Rln Rlnum Rap Rale].
+    unfold mbl_post, Rfin. cbn [pos log bin_off set_pos].
+    split; [auto|]. split.
+    { intros _. split; [exact Hoff|]. split; [exact Hns|]. unfold tailok in *.
+      cbn [after_context_left last_line_visited pos set_pos]. assert (pos c = length s) by lia.
+      destruct Htl as (Hl1 & Hl2). split; [lia|]. destruct Hl2; [left; assumption|right; congruence]. }
+    split; [discriminate|]. intros _ _. split; [cbn [pos set_pos]; lia|]. split; [exact Rmatched|].
+    apply R0_set_pos. exact HR0.
+  Qed.
 
   (* the fast loop over all the remaining lines *)
   Lemma fast_lines : forall fuel ls c g p,
-    lines_at cfg s ls p -> (ls <> [] -> bnd p) -> R cfg s c g -> g_off g = p -> g_stopped g = false -> length ls < fuel ->
+    lines_at cfg s ls p -> (ls <> [] -> bnd p) -> R cfg s A base c g -> g_off g = A + p -> g_stopped g = false ->
+    length ls < fuel ->
     let gf := fold_left gstep ls g in
-    exists b c', fast_then cfg M true K kslow fuel c s = OK b c' /\ Rfin c' gf /\ (b = true -> g_off gf = length s).
+    exists b c', fast_then cfg M bflag K kslow fuel c s = OK b c' /\ mbl_post cfg s A base ls b c' gf.
   Proof.
     induction fuel as [|f IH]; intros ls c g p Hat Hbnd HR Hoff Hns Hf gf; [lia|].
-    destruct HR as (Rpos & Rmatched & HR0).
+    pose proof HR as (Rpos & Rmatched & HR0).
+    assert (Hpc : pos c = p) by lia.
     pose proof (lines_at_total ls p Hat) as Htot.
     pose proof (lines_count ls p Hat) as Hcnt.
     cbn [fast_then].
     (* finishing: the after-context still owed, then pos := len *)
     assert (Hfinish : Forall (fun l => pmatch l = false) ls ->
               c_stop_on_nonmatch cfg && g_matched g = false ->
-              exists c', andthen (after_context_by_line cfg K true c s (length s))
+              exists c', andthen (after_context_by_line cfg K bflag c s (length s))
                                  (fun c0 => OK true (set_pos c0 (length s))) = OK true c' /\
-                         Rfin c' gf /\ g_off gf = length s).
+                         mbl_post cfg s A base ls true c' gf).
     { intros Hall Hstop.
-      destruct (nonmatch_run cfg M Hbin s ls c g p HR0 Hoff Hns Hnopt Hstop (lines_at_seq ls p Hat))
-        as (c1 & Hrun & [P1 P2 P3 P4 P5 P6 P7 P8]).
+      destruct (nonmatch_run cfg M Hbin s A base bflag ls c g p HR0 Hoff Hns Hnopt Hstop (lines_at_seq ls p Hat))
+        as (c1 & Hrun & [P1 P2 P3 P4 P5 P5t P6 P7 P8]).
       { eapply Forall_impl; [|exact Hall]. intros l. apply nonsuccess_of_pmatch. }
-      rewrite Htot in Hrun, P5. rewrite Hrun. cbn [andthen].
-      exists (set_pos c1 (length s)). split; [reflexivity|]. split; [|exact P5].
-      unfold Rfin. cbn [pos log bin_off set_pos]. fold gf in P3, P5. rewrite P5. auto. }
+      rewrite Htot in Hrun, P5, P5t. rewrite Hrun. cbn [andthen].
+      exists (set_pos c1 (length s)). split; [reflexivity|].
+      fold gf in P3, P5, P6, P7, P8.
+      unfold mbl_post. split. { unfold Rfin. cbn [pos log bin_off set_pos]. rewrite P5. auto. }
+      split. { intros _. split; [exact P5|]. split; [exact P6|]. unfold tailok.
+               cbn [after_context_left last_line_visited pos set_pos]. exact P5t. }
+      split; [discriminate|].
+      intros _ Hterm. split; [cbn [pos set_pos]; rewrite P5; reflexivity|].
+      split; [cbn [has_matched set_pos]; congruence|]. apply R0_set_pos. exact (P8 Hterm). }
     destruct (Nat.leb_spec (length s) (pos c)) as [Hend|Hmore].
     { (* nothing left *)
       assert (ls = []) by (destruct ls; [reflexivity|cbn in Hcnt; lia]). subst ls.
-      destruct (c_stop_on_nonmatch cfg && g_matched g) eqn:Est.
-      - (* no line left: after_context over an empty range *)
-        pose proof HR0 as [Rabs Rbin Rlog Rafter Rsunk Rlaid Rllv Rllc Rln Rlnum Rap Rale].
-        unfold after_context_by_line.
-        destruct (Nat.eqb_spec (after_context_left c) 0) as [E0|E0].
-        + cbn [andthen]. exists true, (set_pos c (length s)). split; [reflexivity|].
-          unfold gf. cbn [fold_left]. split; [|intros _; lia].
-          unfold Rfin. cbn [pos log bin_off set_pos]. repeat split; auto. lia.
-        + assert (Hllv : last_line_visited c = p).
-          { assert (1 <= g_after g) by lia. rewrite (Rap H) in Rllv. cbn in Rllv. lia. }
-          cbn [after_loop]. unfold ltb_. rewrite line_step_end by lia. cbn [andthen].
-          exists true, (set_pos c (length s)). split; [reflexivity|].
-          unfold gf. cbn [fold_left]. split; [|intros _; lia].
-          unfold Rfin. cbn [pos log bin_off set_pos]. repeat split; auto. lia.
-      - destruct (Hfinish (Forall_nil _) eq_refl) as (c' & Hrun & Hfin & Hoffgf).
-        exists true, c'. auto. }
+      cbn [concat length] in Htot. assert (Hp : p = length s) by lia.
+      rewrite (after_ctx_empty c g (length s) HR0) by lia. cbn [andthen].
+      exists true, (set_pos c (length s)). split; [reflexivity|]. unfold gf. cbn [fold_left].
+      apply at_end_post; [exact HR|lia|exact Hns]. }
     destruct (c_stop_on_nonmatch cfg && has_matched c) eqn:Estop.
     { (* switch to the slow path *)
-      unfold match_by_line_slow. rewrite Rpos, Hoff.
-      apply (slow_loop_lines cfg M Hbin s ls c g p (S (length s))); auto.
-      - split; [congruence|]. split; assumption.
-      - lia. }
+      unfold match_by_line_slow. rewrite Hpc.
+      apply (slow_loop_lines cfg M Hbin s A base bflag ls c g p (S (length s))); auto. lia. }
     rewrite Hnoinv.
     assert (Hstopg : c_stop_on_nonmatch cfg && g_matched g = false) by (rewrite <- Rmatched; exact Estop).
     assert (Hlsne : ls <> []) by (intro E; subst ls; cbn in Htot; lia).
-    pose proof (Hfind c ls p (eq_trans Rpos Hoff) Hat (Hbnd Hlsne)) as Hf'.
+    pose proof (Hfind c ls p Hpc Hat (Hbnd Hlsne)) as Hf'.
     destruct (find_by_line_fast cfg M c s) as [[[q e]|]|]; [| |contradiction].
-    2:{ destruct (Hfinish Hf' Hstopg) as (c' & Hrun & Hfin & Hoffgf).
+    2:{ destruct (Hfinish Hf' Hstopg) as (c' & Hrun & Hpost).
         exists true, c'. auto. }
     destruct Hf' as (pre & l & post & Hls & Hpre & Hl & Hq & He).
     subst ls.
@@ -175,15 +199,15 @@ Section Fast.
     rewrite <- Hq in Hnl, Hpost.
     (* the lines before the match *)
     set (c1 := set_has_matched c).
-    assert (HR1 : R0 cfg s c1 g) by (apply R0_set_has_matched; exact HR0).
-    destruct (nonmatch_run cfg M Hbin s pre c1 g p HR1 Hoff Hns Hnopt Hstopg Hseq)
-      as (c2 & Hrun2 & [P1 P2 P3 P4 P5 P6 P7 P8]).
+    assert (HR1 : R0 cfg s A base c1 g) by (apply R0_set_has_matched; exact HR0).
+    destruct (nonmatch_run cfg M Hbin s A base bflag pre c1 g p HR1 Hoff Hns Hnopt Hstopg Hseq)
+      as (c2 & Hrun2 & [P1 P2 P3 P4 P5 P5t P6 P7 P8]).
     { eapply Forall_impl; [|exact Hpre]. intros x. apply nonsuccess_of_pmatch. }
     rewrite <- Hq in Hrun2, P5.
     set (gk := fold_left gstep pre g) in *.
     pose proof (P8 Hterm) as HR2.
     (* the match *)
-    destruct (matched_step cfg Hbin s c2 gk q l HR2 P5 P6 Hnl) as (c3 & Hrun3 & H3bin & Hc4).
+    destruct (matched_step cfg Hbin s A base bflag c2 gk q l HR2 P5 P6 Hnl) as (c3 & Hrun3 & H3bin & Hc4).
     cbn zeta in Hc4. destruct Hc4 as (Hp4 & Hlog4 & Hbin4 & Hm4 & Hllv4 & HR4).
     assert (Hc2m : set_has_matched c2 = c2) by (apply set_has_matched_id; rewrite P2; reflexivity).
     rewrite Hc2m in Hrun3.
@@ -194,22 +218,22 @@ Section Fast.
     { unfold gf. rewrite fold_app. cbn [fold_left]. fold gk. now rewrite Hgl. }
     set (g' := g_step_s cfg gk l true) in *.
     assert (Hst' : g_stopped g' = false) by (unfold g', g_step_s; rewrite P6; reflexivity).
-    assert (Hoff' : g_off g' = q + length l) by (unfold g', g_step_s; rewrite P6, P5; reflexivity).
+    assert (Hoff' : g_off g' = A + (q + length l)) by (unfold g', g_step_s; rewrite P6, P5; cbn [g_off]; lia).
     assert (Hgm' : g_matched g' = true) by (unfold g', g_step_s; rewrite P6; reflexivity).
     (* what the code does with the match *)
-    assert (Hkk : andthen (sink_matched cfg K true (set_pos c3 e) s q e)
-                          (fun c0 => fast_then cfg M true K kslow f c0 s)
-                  = fast_then cfg M true K kslow f (set_pos c4 e) s).
+    assert (Hkk : andthen (sink_matched cfg K bflag (set_pos c3 e) s q e)
+                          (fun c0 => fast_then cfg M bflag K kslow f c0 s)
+                  = fast_then cfg M bflag K kslow f (set_pos c4 e) s).
     { rewrite (sink_matched_K cfg Hbin) by exact H3bin. cbn [andthen]. subst e.
       unfold c4. now rewrite post_matched_set_pos. }
     assert (Hstep : (if Nat.ltb 0 (max_context cfg)
-                     then andthen (after_context_by_line cfg K true c1 s q)
-                            (fun c0 => andthen (before_context_by_line cfg K true c0 s q)
-                               (fun c5 => andthen (sink_matched cfg K true (set_pos c5 e) s q e)
-                                            (fun c6 => fast_then cfg M true K kslow f c6 s)))
-                     else andthen (sink_matched cfg K true (set_pos c1 e) s q e)
-                            (fun c6 => fast_then cfg M true K kslow f c6 s))
-                    = fast_then cfg M true K kslow f (set_pos c4 e) s).
+                     then andthen (after_context_by_line cfg K bflag c1 s q)
+                            (fun c0 => andthen (before_context_by_line cfg K bflag c0 s q)
+                               (fun c5 => andthen (sink_matched cfg K bflag (set_pos c5 e) s q e)
+                                            (fun c6 => fast_then cfg M bflag K kslow f c6 s)))
+                     else andthen (sink_matched cfg K bflag (set_pos c1 e) s q e)
+                            (fun c6 => fast_then cfg M bflag K kslow f c6 s))
+                    = fast_then cfg M bflag K kslow f (set_pos c4 e) s).
     { destruct (Nat.ltb_spec 0 (max_context cfg)) as [Hmc|Hmc].
       - rewrite Hrun2. cbn [andthen]. rewrite Hrun3. cbn [andthen]. exact Hkk.
       - (* no context configured: both calls would have been no-ops *)
@@ -230,77 +254,30 @@ Section Fast.
       destruct f as [|f']; [rewrite app_length in Hf; cbn in Hf; lia|].
       cbn [fast_then]. cbn [pos set_pos].
       destruct (Nat.leb_spec (length s) e) as [_|Hlt]; [|lia].
-      assert (Hend : after_context_by_line cfg K true (set_pos c4 e) s (length s) = OK true (set_pos c4 e)).
+      assert (Hend : after_context_by_line cfg K bflag (set_pos c4 e) s (length s) = OK true (set_pos c4 e)).
       { unfold after_context_by_line. destruct (Nat.eqb (after_context_left (set_pos c4 e)) 0); [reflexivity|].
         cbn [after_loop last_line_visited set_pos]. unfold ltb_. rewrite line_step_end by lia. reflexivity. }
       rewrite Hend. cbn [andthen].
       exists true, (set_pos (set_pos c4 e) (length s)). split; [reflexivity|]. rewrite Hgf.
-      split; [|intros _; rewrite Hoff'; lia].
-      unfold Rfin. cbn [pos log bin_off set_pos]. rewrite Hoff'. repeat split; auto.
-    - assert (HR' : R cfg s (set_pos c4 e) g').
+      unfold mbl_post. split. { unfold Rfin. cbn [pos log bin_off set_pos]. rewrite Hoff'. split; [lia|auto]. }
+      split. { intros _. split; [rewrite Hoff'; lia|]. split; [exact Hst'|].
+               unfold tailok. cbn [last_line_visited pos set_pos]. split; [lia|right; lia]. }
+      split; [discriminate|].
+      intros _ Hall. apply Forall_app in Hall as [_ Hall]. inversion Hall as [|? ? Htl _]; subst.
+      split; [cbn [pos set_pos]; rewrite Hoff'; lia|]. split; [cbn [has_matched set_pos]; congruence|].
+      apply R0_set_pos, R0_set_pos. exact (HR4 Htl).
+    - assert (HR' : R cfg s A base (set_pos c4 e) g').
       { split; [cbn [pos set_pos]; rewrite Hoff'; now subst e|]. split; [cbn; rewrite Hgm'; exact Hm4|].
         apply R0_set_pos. apply HR4. apply Hlterm. discriminate. }
-      rewrite Hgf. apply (IH (l2 :: post2) (set_pos c4 e) g' e); auto.
+      rewrite Hgf.
+      destruct (IH (l2 :: post2) (set_pos c4 e) g' e) as (b & c'' & Hrun' & Hpost'); auto.
       + now subst e.
       + intros _. subst e. apply bnd_next; [exact Hnl|apply Hlterm; discriminate].
       + subst e. exact Hoff'.
       + rewrite app_length in Hf. cbn in Hf |- *. lia.
-  Qed.
-
-  (* ------------------------------------------------------------------ SliceByLine::run *)
-  Lemma slice_run_assembly :
-    let c0 := set_log (core_new cfg) [EBegin] in
-    let gf := fold_left gstep (split_lines ltb s) g_init in
-    (s <> [] -> exists b c', match_by_line cfg M K true c0 s = OK b c' /\ Rfin c' gf /\ (b = true -> g_off gf = length s)) ->
-    slice_by_line_run cfg M K s = RunOk (grep_ref cfg (m_is_match M) s).
-  Proof.
-    intros c0 gf Hmbl.
-    unfold slice_by_line_run. rewrite emit_K.
-    change (log (core_new cfg)) with (@nil event). fold c0.
-    rewrite (detect_binary_K cfg Hbin) by reflexivity.
-    unfold grep_ref, g_run. fold gf.
-    assert (Hfinish : forall c1, pos c1 = g_off gf -> log c1 = g_out gf ++ [EBegin] -> bin_off c1 = None ->
-              finish K c1 (byte_count c1) = RunOk (EBegin :: rev (g_out gf) ++ [EFinish (g_off gf) None])).
-    { intros c1 H1 H2 H3. unfold finish, byte_count. rewrite H3, H1, H2.
-      cbn [rev]. rewrite rev_app_distr. cbn [rev app]. reflexivity. }
-    cbn [slice_loop].
-    destruct (Nat.leb_spec (length s) (pos c0)) as [Hle|Hgt].
-    - cbn [c0 pos set_log core_new] in Hle.
-      assert (Hs0 : s = []) by (destruct s; [reflexivity|cbn in Hle; lia]).
-      unfold gf. rewrite Hs0. cbn. reflexivity.
-    - destruct Hmbl as (b & c' & Hrun & (Fpos & Flog & Fbin) & Hb).
-      { intro E. rewrite E in Hgt. cbn in Hgt. lia. }
-      rewrite Hrun. destruct b.
-      + cbn [slice_loop].
-        destruct (Nat.leb_spec (length s) (pos c')) as [_|Hlt]; [|rewrite Fpos, (Hb eq_refl) in Hlt; lia].
-        apply Hfinish; auto.
-      + apply Hfinish; auto.
-  Qed.
-
-  Theorem slice_eq_ref_noninvert_proof :
-    slice_by_line_run cfg M K s = RunOk (grep_ref cfg (m_is_match M) s).
-  Proof.
-    apply slice_run_assembly. intros Hne.
-    set (c0 := set_log (core_new cfg) [EBegin]).
-    pose proof (R_init cfg s) as HR0. fold c0 in HR0.
-    pose proof (lines_at_shape cfg s _ (split_lines_shape ltb s) 0 ltac:(lia)
-                  ltac:(rewrite split_lines_concat; reflexivity)) as Hat.
-    assert (Hcnt : length (split_lines ltb s) < S (length s)).
-    { pose proof (lines_count _ _ Hat). lia. }
-    unfold match_by_line.
-    destruct (is_line_by_line_fast cfg M c0) eqn:Efast.
-    - unfold match_by_line_fast.
-      pose proof (conv_fast_loop cfg M true K (fun c => match_by_line_slow cfg M K true c s) s
-                    (S (S (length s))) c0) as Hconv.
-      destruct (fast_lines (S (S (length s))) (split_lines ltb s) c0 g_init 0 Hat (fun _ => or_introl eq_refl) HR0 eq_refl eq_refl ltac:(lia))
-        as (b & c' & Hrun & Hfin & Hb).
-      rewrite Hrun in Hconv.
-      exists b, c'. split; [|split; assumption].
-      destruct (fast_loop cfg M K true (S (S (length s))) c0 s) as [[| |] c1|c1|]; cbn [conv] in Hconv;
-        try discriminate; try (injection Hconv as -> ->; reflexivity).
-      exact Hconv.
-    - unfold match_by_line_slow. change (pos c0) with 0.
-      exact (slow_loop_lines cfg M Hbin s (split_lines ltb s) c0 g_init 0 (S (length s)) Hat HR0 eq_refl eq_refl Hcnt).
+      + exists b, c''. split; [exact Hrun'|].
+        eapply mbl_post_weaken; [|exact Hpost'].
+        intro Hall. apply Forall_app in Hall as [_ Hall]. inversion Hall; assumption.
   Qed.
 End Fast.
 
@@ -314,13 +291,15 @@ Section FastInv.
   Variable M : matcher.
   Hypothesis Hbin : c_binary cfg = BNone.
   Variable s : bytes.
+  Variable A base : nat.
+  Variable bflag : bool.
   Notation ltb := (lt_byte (c_lt cfg)).
   Notation K := (fun _ : nat => Continue).
   Notation gstep := (g_step cfg (m_is_match M)).
   Hypothesis Hfind : find_spec cfg M s.
   Hypothesis Hinv : c_invert cfg = true.
   Hypothesis Hnopt : c_passthru cfg = false.
-  Notation kslow := (fun c => match_by_line_slow cfg M K true c s).
+  Notation kslow := (fun c => match_by_line_slow cfg M K bflag c s).
   Notation pm := (pmatch cfg M).
 
   Lemma nonsuccess_of_pmatch_inv l : pm l = true -> nonsuccess cfg M l.
@@ -342,8 +321,8 @@ Section FastInv.
       + intro Hb. constructor; [|exact (I2 Hb)]. apply H2. destruct r; [exact Hb|discriminate].
   Qed.
 
-  Lemma before_noop c g p : R0 cfg s c g -> g_pend g = [] -> g_off g = p ->
-    before_context_by_line cfg K true c s p = OK true c.
+  Lemma before_noop c g p : R0 cfg s A base c g -> g_pend g = [] -> g_off g = A + p ->
+    before_context_by_line cfg K bflag c s p = OK true c.
   Proof.
     intros HR Hp Hoff. destruct HR as [Rabs Rbin Rlog Rafter Rsunk Rlaid Rllv Rllc Rln Rlnum Rap Rale].
     rewrite Hp in Rllv. cbn in Rllv.
@@ -356,19 +335,19 @@ Section FastInv.
     mp_matched : has_matched c' = true;
     mp_log : log c' = g_out gk ++ [EBegin];
     mp_bin : bin_off c' = None;
-    mp_off : g_off gk = q;
+    mp_off : g_off gk = A + q;
     mp_ns : g_stopped gk = false;
     mp_gm : xs <> [] -> g_matched gk = true;
     mp_pend : xs <> [] -> g_pend gk = [];
     mp_llv : xs <> [] -> last_line_visited c' = q;
-    mp_R0 : Forall (terminated ltb) xs -> R0 cfg s c' gk;
+    mp_R0 : Forall (terminated ltb) xs -> R0 cfg s A base c' gk;
   }.
 
   (* a run of result lines, delivered one by one (before-context already handled) *)
   Lemma matched_loop_run : forall xs fuel c g p,
-    R0 cfg s c g -> g_off g = p -> g_stopped g = false -> has_matched c = true -> g_pend g = [] ->
+    R0 cfg s A base c g -> g_off g = A + p -> g_stopped g = false -> has_matched c = true -> g_pend g = [] ->
     lines_seq cfg s xs p -> Forall (fun l => pm l = false) xs -> length xs < fuel ->
-    exists c', matched_loop cfg K true fuel c s p (p + length (concat xs)) = OK true c' /\
+    exists c', matched_loop cfg K bflag fuel c s p (p + length (concat xs)) = OK true c' /\
                mrun_post c c' (fold_left gstep xs g) (p + length (concat xs)) xs.
   Proof.
     induction xs as [|x r IH]; intros fuel c g p HR Hoff Hns Hm Hpend Hseq Hall Hf.
@@ -380,7 +359,7 @@ Section FastInv.
       pose proof (lines_seq_bound cfg s (x :: r) p (conj Hnl (conj Hterm Hrest)) ltac:(discriminate)) as Hbound.
       cbn [matched_loop concat fold_left] in *. rewrite app_length in *. rewrite Nat.add_assoc.
       unfold ltb_. rewrite (line_step_seq cfg s p x) by (auto; lia).
-      destruct (matched_step cfg Hbin s c g p x HR Hoff Hns Hnl) as (c2 & Hrun & H2bin & Hc3).
+      destruct (matched_step cfg Hbin s A base bflag c g p x HR Hoff Hns Hnl) as (c2 & Hrun & H2bin & Hc3).
       rewrite (set_has_matched_id c Hm) in Hrun.
       rewrite (before_noop c g p HR Hpend Hoff) in Hrun. injection Hrun as <-.
       cbn zeta in Hc3. destruct Hc3 as (Hp3 & Hlog3 & Hbin3 & Hm3 & Hllv3 & HR3).
@@ -389,7 +368,7 @@ Section FastInv.
       set (c3 := CoreSinkProofs.post_matched cfg c s p (p + length x)) in *.
       set (g' := g_step_s cfg g x true) in *.
       assert (Hst' : g_stopped g' = false) by (unfold g', g_step_s; rewrite Hns; reflexivity).
-      assert (Hoff' : g_off g' = p + length x) by (unfold g', g_step_s; rewrite Hns, Hoff; reflexivity).
+      assert (Hoff' : g_off g' = A + (p + length x)) by (unfold g', g_step_s; rewrite Hns, Hoff; cbn [g_off]; lia).
       assert (Hgm' : g_matched g' = true) by (unfold g', g_step_s; rewrite Hns; reflexivity).
       assert (Hgp' : g_pend g' = []) by (unfold g', g_step_s; rewrite Hns; reflexivity).
       destruct r as [|x2 r2].
@@ -408,33 +387,24 @@ Section FastInv.
         * intro Hall'. inversion Hall'. auto.
   Qed.
 
-  Lemma after_ctx_empty c g p : R0 cfg s c g -> g_off g = p ->
-    after_context_by_line cfg K true c s p = OK true c.
-  Proof.
-    intros HR Hoff. pose proof HR as [Rabs Rbin Rlog Rafter Rsunk Rlaid Rllv Rllc Rln Rlnum Rap Rale].
-    unfold after_context_by_line.
-    destruct (Nat.eqb_spec (after_context_left c) 0) as [E0|E0]; [reflexivity|].
-    assert (Hllv : last_line_visited c = p).
-    { assert (1 <= g_after g) by lia. rewrite (Rap H) in Rllv. cbn in Rllv. lia. }
-    cbn [after_loop]. unfold ltb_. rewrite line_step_end by lia. reflexivity.
-  Qed.
+  Notation after_ctx_empty := (after_ctx_empty cfg s A base bflag).
 
   (* one non-empty range of result lines: catch up on the lagging lines, before-context, the lines *)
-  Lemma invert_range xs c g0 lag p :
-    R0 cfg s c g0 -> g_stopped g0 = false -> c_stop_on_nonmatch cfg && g_matched g0 = false ->
+  Lemma invert_range xs c g0 lag p0 p :
+    R0 cfg s A base c g0 -> g_off g0 = A + p0 -> g_stopped g0 = false -> c_stop_on_nonmatch cfg && g_matched g0 = false ->
     has_matched c = true ->
-    lines_seq cfg s lag (g_off g0) -> Forall (terminated ltb) lag -> Forall (fun l => pm l = true) lag ->
-    p = g_off g0 + length (concat lag) ->
+    lines_seq cfg s lag p0 -> Forall (terminated ltb) lag -> Forall (fun l => pm l = true) lag ->
+    p = p0 + length (concat lag) ->
     xs <> [] -> lines_seq cfg s xs p -> Forall (fun l => pm l = false) xs ->
     exists c',
-      andthen (after_context_by_line cfg K true c s p) (fun c =>
-      andthen (before_context_by_line cfg K true c s p) (fun c =>
-      matched_loop cfg K true (S (length s)) c s p (p + length (concat xs)))) = OK true c' /\
+      andthen (after_context_by_line cfg K bflag c s p) (fun c =>
+      andthen (before_context_by_line cfg K bflag c s p) (fun c =>
+      matched_loop cfg K bflag (S (length s)) c s p (p + length (concat xs)))) = OK true c' /\
       mrun_post c c' (fold_left gstep xs (fold_left gstep lag g0)) (p + length (concat xs)) xs.
   Proof.
-    intros HR Hns Hstop Hm Hlag Hlagt Hlagp Hp Hne Hseq Hall.
-    destruct (nonmatch_run cfg M Hbin s lag c g0 (g_off g0) HR eq_refl Hns Hnopt Hstop Hlag)
-      as (c2 & Hrun2 & [P1 P2 P3 P4 P5 P6 P7 P8]).
+    intros HR Hoff0 Hns Hstop Hm Hlag Hlagt Hlagp Hp Hne Hseq Hall.
+    destruct (nonmatch_run cfg M Hbin s A base bflag lag c g0 p0 HR Hoff0 Hns Hnopt Hstop Hlag)
+      as (c2 & Hrun2 & [P1 P2 P3 P4 P5 P5t P6 P7 P8]).
     { eapply Forall_impl; [|exact Hlagp]. intro l. apply nonsuccess_of_pmatch_inv. }
     rewrite <- Hp in Hrun2, P5. rewrite Hrun2. cbn [andthen].
     set (gk := fold_left gstep lag g0) in *.
@@ -443,7 +413,7 @@ Section FastInv.
     destruct Hseq as (Hnl & Hterm & Hrest). inversion Hall as [|? ? Hx Hr].
     pose proof (lines_seq_bound cfg s (x :: r) p (conj Hnl (conj Hterm Hrest)) ltac:(discriminate)) as Hbound.
     assert (Hm2 : has_matched c2 = true) by congruence.
-    destruct (matched_step cfg Hbin s c2 gk p x HR2 P5 P6 Hnl) as (c3 & Hrun3 & H3bin & Hc4).
+    destruct (matched_step cfg Hbin s A base bflag c2 gk p x HR2 P5 P6 Hnl) as (c3 & Hrun3 & H3bin & Hc4).
     rewrite (set_has_matched_id c2 Hm2) in Hrun3. rewrite Hrun3. cbn [andthen].
     cbn zeta in Hc4. destruct Hc4 as (Hp4 & Hlog4 & Hbin4 & Hm4 & Hllv4 & HR4).
     cbn [matched_loop concat fold_left] in *. rewrite app_length in *. rewrite Nat.add_assoc.
@@ -453,7 +423,7 @@ Section FastInv.
     set (c4 := CoreSinkProofs.post_matched cfg c3 s p (p + length x)) in *.
     set (g' := g_step_s cfg gk x true) in *.
     assert (Hst' : g_stopped g' = false) by (unfold g', g_step_s; rewrite P6; reflexivity).
-    assert (Hoff' : g_off g' = p + length x) by (unfold g', g_step_s; rewrite P6, P5; reflexivity).
+    assert (Hoff' : g_off g' = A + (p + length x)) by (unfold g', g_step_s; rewrite P6, P5; cbn [g_off]; lia).
     assert (Hgm' : g_matched g' = true) by (unfold g', g_step_s; rewrite P6; reflexivity).
     assert (Hgp' : g_pend g' = []) by (unfold g', g_step_s; rewrite P6; reflexivity).
     assert (Hpos4 : pos c4 = pos c) by congruence.
@@ -487,21 +457,21 @@ Section FastInv.
       + intro Hall'. inversion Hall'. auto.
   Qed.
 
-  Lemma fold_app' {A B} (f : A -> B -> A) l1 l2 a : fold_left f (l1 ++ l2) a = fold_left f l2 (fold_left f l1 a).
+  Lemma fold_app' {X Y} (f : X -> Y -> X) l1 l2 a : fold_left f (l1 ++ l2) a = fold_left f l2 (fold_left f l1 a).
   Proof. apply fold_left_app. Qed.
 
   (* the inverted fast loop over all the remaining lines, with lagging lines behind the position *)
-  Lemma inv_lines : forall fuel ls c g0 lag,
-    R0 cfg s c g0 -> has_matched c = g_matched g0 -> g_stopped g0 = false ->
-    lines_at cfg s (lag ++ ls) (g_off g0) -> Forall (fun l => pm l = true) lag ->
-    pos c = g_off g0 + length (concat lag) -> (ls <> [] -> bnd cfg s (pos c)) ->
+  Lemma inv_lines : forall fuel ls c g0 lag p0,
+    R0 cfg s A base c g0 -> has_matched c = g_matched g0 -> g_stopped g0 = false -> g_off g0 = A + p0 ->
+    lines_at cfg s (lag ++ ls) p0 -> Forall (fun l => pm l = true) lag ->
+    pos c = p0 + length (concat lag) -> (ls <> [] -> bnd cfg s (pos c)) ->
     (c_stop_on_nonmatch cfg && g_matched g0 = true -> lag = []) ->
     length ls < fuel ->
     let gf := fold_left gstep ls (fold_left gstep lag g0) in
-    exists b c', fast_then cfg M true K kslow fuel c s = OK b c' /\ Rfin c' gf /\ (b = true -> g_off gf = length s).
+    exists b c', fast_then cfg M bflag K kslow fuel c s = OK b c' /\ mbl_post cfg s A base (lag ++ ls) b c' gf.
   Proof.
-    induction fuel as [|f IH]; intros ls c g0 lag HR0 Rmatched Hns Hat Hlagp Hpos Hbnd Hstoplag Hf gf; [lia|].
-    destruct (lines_at_app lag ls (g_off g0) Hat) as (Hlagseq & Hlagterm & Hatls).
+    induction fuel as [|f IH]; intros ls c g0 lag p0 HR0 Rmatched Hns Hoff0 Hat Hlagp Hpos Hbnd Hstoplag Hf gf; [lia|].
+    destruct (lines_at_app lag ls p0 Hat) as (Hlagseq & Hlagterm & Hatls).
     rewrite <- Hpos in Hatls.
     remember (pos c) as p eqn:Ep.
     pose proof (lines_at_total cfg s ls p Hatls) as Htot.
@@ -512,33 +482,40 @@ Section FastInv.
     { eapply Forall_impl; [|exact Hlagp]. intro l. apply nonsuccess_of_pmatch_inv. }
     (* catching up at the very end *)
     assert (Hfinish : ls = [] ->
-              exists c', andthen (after_context_by_line cfg K true c s (length s))
+              exists c', andthen (after_context_by_line cfg K bflag c s (length s))
                                  (fun c0 => OK true (set_pos c0 (length s))) = OK true c' /\
-                         Rfin c' gf /\ g_off gf = length s).
+                         mbl_post cfg s A base (lag ++ ls) true c' gf).
     { intros ->. unfold gf. cbn [fold_left]. cbn [concat length] in Htot. rewrite Nat.add_0_r in Htot.
+      rewrite app_nil_r.
       destruct (c_stop_on_nonmatch cfg && g_matched g0) eqn:Est.
       - pose proof (Hstoplag eq_refl) as Hl0. subst lag. cbn [concat length] in Hpos.
-        rewrite <- Htot. rewrite (after_ctx_empty c g0 p HR0 ltac:(lia)). cbn [andthen].
-        exists (set_pos c p). split; [reflexivity|].
-        pose proof HR0 as [Rabs Rbin Rlog Rafter Rsunk Rlaid Rllv Rllc Rln Rlnum Rap Rale].
-        unfold gk. cbn [fold_left]. split; [|lia].
-        unfold Rfin. cbn [pos log bin_off set_pos]. repeat split; auto. lia.
-      - destruct (nonmatch_run cfg M Hbin s lag c g0 (g_off g0) HR0 eq_refl Hns Hnopt Est Hlagseq Hnonlag)
-          as (c1 & Hrun & [P1 P2 P3 P4 P5 P6 P7 P8]).
-        rewrite <- Hpos, Htot in Hrun, P5. rewrite Hrun. cbn [andthen].
-        exists (set_pos c1 (length s)). split; [reflexivity|]. fold gk in P3, P5. split; [|exact P5].
-        unfold Rfin. cbn [pos log bin_off set_pos]. rewrite P5. auto. }
+        rewrite (after_ctx_empty c g0 (length s) HR0) by lia. cbn [andthen].
+        exists (set_pos c (length s)). split; [reflexivity|].
+        unfold gk. cbn [fold_left].
+        apply (at_end_post cfg s A base); [|lia|exact Hns].
+        split; [lia|]. split; [exact Rmatched|exact HR0].
+      - destruct (nonmatch_run cfg M Hbin s A base bflag lag c g0 p0 HR0 Hoff0 Hns Hnopt Est Hlagseq Hnonlag)
+          as (c1 & Hrun & [P1 P2 P3 P4 P5 P5t P6 P7 P8]).
+        rewrite <- Hpos, Htot in Hrun, P5, P5t. rewrite Hrun. cbn [andthen].
+        exists (set_pos c1 (length s)). split; [reflexivity|]. fold gk in P3, P5, P6, P7, P8.
+        unfold mbl_post. split. { unfold Rfin. cbn [pos log bin_off set_pos]. rewrite P5. auto. }
+        split. { intros _. split; [exact P5|]. split; [exact P6|]. unfold tailok.
+                 cbn [after_context_left last_line_visited pos set_pos]. exact P5t. }
+        split; [discriminate|].
+        intros _ Hterm. split; [cbn [pos set_pos]; rewrite P5; reflexivity|].
+        split; [cbn [has_matched set_pos]; congruence|]. apply R0_set_pos. exact (P8 Hterm). }
     destruct (Nat.leb_spec (length s) p) as [Hend|Hmore].
     { assert (ls = []) by (destruct ls; [reflexivity|cbn in Hcnt; lia]).
-      destruct (Hfinish H) as (c' & Hrun & Hfin & Hoffgf). exists true, c'. auto. }
+      destruct (Hfinish H) as (c' & Hrun & Hpost). exists true, c'. auto. }
     destruct (c_stop_on_nonmatch cfg && has_matched c) eqn:Estop.
     { (* switch to the slow path: no line lags *)
-      rewrite Rmatched in Estop. pose proof (Hstoplag Estop) as Hl0. subst lag. cbn [concat length] in Hpos. cbn [app] in Hat.
+      rewrite Rmatched in Estop. pose proof (Hstoplag Estop) as Hl0. subst lag. cbn [concat length] in Hpos. cbn [app] in Hat |- *.
       unfold match_by_line_slow. rewrite <- Ep.
-      assert (Hp0 : p = g_off g0) by lia.
+      assert (Hp0 : p = p0) by lia.
       unfold gf, gk. cbn [fold_left].
-      apply (slow_loop_lines cfg M Hbin s ls c g0 p (S (length s))); auto.
-      - split; [rewrite <- Ep; exact Hp0|]. split; [rewrite Rmatched; reflexivity|exact HR0]. 
+      apply (slow_loop_lines cfg M Hbin s A base bflag ls c g0 p (S (length s))); auto.
+      - split; [rewrite <- Ep; lia|]. split; [rewrite Rmatched; reflexivity|exact HR0].
+      - lia.
       - lia. }
     rewrite Hinv.
     assert (Hstopg : c_stop_on_nonmatch cfg && g_matched g0 = false) by (rewrite <- Rmatched; exact Estop).
@@ -559,7 +536,7 @@ Section FastInv.
         assert (Hgf : gf = fold_left gstep post (fold_left gstep (lag ++ [l]) g0)).
         { unfold gf. rewrite fold_app'. cbn [fold_left]. reflexivity. }
         rewrite Hgf.
-        apply (IH post (set_pos c e) g0 (lag ++ [l])); auto.
+        destruct (IH post (set_pos c e) g0 (lag ++ [l]) p0) as (b & c'' & Hrun' & Hpost'); auto.
         * apply R0_set_pos. exact HR0.
         * rewrite <- app_assoc. exact Hat.
         * apply Forall_app. split; [exact Hlagp|]. constructor; [exact Hl|constructor].
@@ -568,6 +545,7 @@ Section FastInv.
         * intro Hpne. cbn [pos set_pos]. subst e. apply (bnd_next cfg s); [exact Hnl|apply Hlterm; exact Hpne].
         * intro H. rewrite H in Hstopg. discriminate.
         * cbn in Hf. lia.
+        * exists b, c''. split; [exact Hrun'|]. rewrite <- app_assoc in Hpost'. exact Hpost'.
       + (* a non-empty range of result lines *)
         assert (Hqgt : p < q).
         { destruct Hseq as ((_ & _ & Hshape) & _ & _). subst q. cbn [concat]. rewrite app_length.
@@ -575,101 +553,190 @@ Section FastInv.
         rewrite <- Ep. destruct (Nat.leb_spec q p) as [|_]; [lia|]. cbn [negb]. rewrite andb_true_r.
         set (c1 := if c_stop_on_nonmatch cfg then set_pos c q else set_pos c e).
         destruct (Nat.leb_spec q p) as [|_]; [lia|].
-        assert (HR1 : R0 cfg s (set_has_matched c1) g0).
+        assert (HR1 : R0 cfg s A base (set_has_matched c1) g0).
         { apply R0_set_has_matched. unfold c1. destruct (c_stop_on_nonmatch cfg); apply R0_set_pos; exact HR0. }
-        destruct (invert_range (x :: r) (set_has_matched c1) g0 lag p HR1 Hns Hstopg eq_refl Hlagseq Hlagt Hlagp
+        destruct (invert_range (x :: r) (set_has_matched c1) g0 lag p0 p HR1 Hoff0 Hns Hstopg eq_refl Hlagseq Hlagt Hlagp
                     ltac:(lia) ltac:(discriminate) Hseq Hpre)
           as (c' & Hrun & [Q1 Q2 Q3 Q4 Q5 Q6 Q7 Q8 Q9 Q10]).
         rewrite <- Hq in Hrun, Q5, Q9. rewrite Hrun. cbn [andthen].
         set (gn := fold_left gstep (x :: r) gk) in *.
         pose proof (Q10 Hterm) as HRn.
-        assert (Q5' : g_off gn = q) by exact Q5.
+        assert (Q5' : g_off gn = A + q) by exact Q5.
         assert (Hgf : gf = fold_left gstep (l :: post) gn).
         { unfold gf, gn. rewrite fold_app'. reflexivity. }
         destruct (c_stop_on_nonmatch cfg) eqn:Ecs.
         * (* the search must stop at l: it is left to the slow path *)
           rewrite Hgf.
-          apply (IH (l :: post) c' gn []); auto.
+          destruct (IH (l :: post) c' gn [] q) as (b & c'' & Hrun' & Hpost'); auto.
           -- rewrite Q2. symmetry. apply Q7. discriminate.
-          -- cbn [app]. rewrite Q5'. split; [exact Hnl|]. split; [exact Hlterm|exact Hpost].
-          -- cbn [concat length]. rewrite Q1, Q5'. unfold c1. rewrite ?Ecs. cbn [pos set_has_matched set_pos]. lia.
+          -- cbn [app]. split; [exact Hnl|]. split; [exact Hlterm|exact Hpost].
+          -- cbn [concat length]. rewrite Q1. unfold c1. rewrite ?Ecs. cbn [pos set_has_matched set_pos]. lia.
           -- intros _. rewrite Q1. unfold c1. rewrite ?Ecs. cbn [pos set_has_matched set_pos]. rewrite Hq.
              apply (bnd_seq cfg s); [exact Hseq|exact Hterm|discriminate].
           -- rewrite app_length in Hf. cbn in Hf |- *. lia.
+          -- exists b, c''. split; [exact Hrun'|].
+             eapply mbl_post_weaken; [|exact Hpost'].
+             intro Hall. apply Forall_app in Hall as [_ Hall]. apply Forall_app in Hall as [_ Hall]. exact Hall.
         * assert (Hgf2 : gf = fold_left gstep post (fold_left gstep [l] gn)).
           { rewrite Hgf. reflexivity. }
           rewrite Hgf2.
-          apply (IH post c' gn [l]); auto.
+          destruct (IH post c' gn [l] q) as (b & c'' & Hrun' & Hpost'); auto.
           -- rewrite Q2. symmetry. apply Q7. discriminate.
-          -- cbn [app]. rewrite Q5'. split; [exact Hnl|]. split; [exact Hlterm|exact Hpost].
-          -- cbn [concat length]. rewrite app_nil_r. rewrite Q1, Q5'. unfold c1. rewrite ?Ecs. cbn [pos set_has_matched set_pos]. lia.
+          -- cbn [app]. split; [exact Hnl|]. split; [exact Hlterm|exact Hpost].
+          -- cbn [concat length]. rewrite app_nil_r. rewrite Q1. unfold c1. rewrite ?Ecs. cbn [pos set_has_matched set_pos]. lia.
           -- intro Hpne. rewrite Q1. unfold c1. rewrite ?Ecs. cbn [pos set_has_matched set_pos]. subst e.
              apply (bnd_next cfg s); [exact Hnl|apply Hlterm; exact Hpne].
           -- cbn [andb]. discriminate.
           -- rewrite app_length in Hf. cbn in Hf |- *. lia.
+          -- exists b, c''. split; [exact Hrun'|].
+             eapply mbl_post_weaken; [|exact Hpost'].
+             intro Hall. apply Forall_app in Hall as [_ Hall]. apply Forall_app in Hall as [_ Hall]. exact Hall.
     - (* no further line matches the pattern: all the remaining lines are results *)
       destruct ls as [|x r]; [cbn in Htot; lia|].
       rewrite <- Ep. destruct (Nat.leb_spec (length s) p) as [|_]; [lia|].
-      assert (HR1 : R0 cfg s (set_has_matched (set_pos c (length s))) g0).
+      assert (HR1 : R0 cfg s A base (set_has_matched (set_pos c (length s))) g0).
       { apply R0_set_has_matched. apply R0_set_pos. exact HR0. }
       assert (Hlagt : Forall (terminated ltb) lag) by (apply Hlagterm; discriminate).
-      destruct (invert_range (x :: r) (set_has_matched (set_pos c (length s))) g0 lag p HR1 Hns Hstopg eq_refl
+      destruct (invert_range (x :: r) (set_has_matched (set_pos c (length s))) g0 lag p0 p HR1 Hoff0 Hns Hstopg eq_refl
                   Hlagseq Hlagt Hlagp ltac:(lia) ltac:(discriminate) (lines_at_seq cfg s _ _ Hatls) Hf')
         as (c' & Hrun & [Q1 Q2 Q3 Q4 Q5 Q6 Q7 Q8 Q9 Q10]).
       rewrite Htot in Hrun, Q5, Q9. rewrite Hrun. cbn [andthen].
       fold gf in Q3, Q5, Q6, Q7, Q8.
       destruct f as [|f']; [cbn in Hf; lia|]. cbn [fast_then].
       rewrite Q1. cbn [pos set_has_matched set_pos]. rewrite Nat.leb_refl.
-      assert (Hend : after_context_by_line cfg K true c' s (length s) = OK true c').
+      assert (Hend : after_context_by_line cfg K bflag c' s (length s) = OK true c').
       { unfold after_context_by_line. destruct (Nat.eqb (after_context_left c') 0); [reflexivity|].
         cbn [after_loop]. rewrite (Q9 ltac:(discriminate)). unfold ltb_. rewrite line_step_end by lia. reflexivity. }
       rewrite Hend. cbn [andthen].
-      assert (Q5' : g_off gf = length s) by exact Q5.
+      assert (Q5' : g_off gf = A + length s) by exact Q5.
       assert (Q3' : log c' = g_out gf ++ [EBegin]) by exact Q3.
-      exists true, (set_pos c' (length s)). split; [reflexivity|]. split; [|intros _; exact Q5'].
-      unfold Rfin. cbn [pos log bin_off set_pos]. rewrite Q5'. auto.
-  Qed.
-
-  Theorem slice_eq_ref_invert_proof :
-    slice_by_line_run cfg M K s = RunOk (grep_ref cfg (m_is_match M) s).
-  Proof.
-    apply (slice_run_assembly cfg M Hbin s). intros Hne.
-    set (c0 := set_log (core_new cfg) [EBegin]).
-    destruct (R_init cfg s) as (Hp0 & Hm0 & HR0). fold c0 in Hp0, Hm0, HR0.
-    pose proof (lines_at_shape cfg s _ (split_lines_shape ltb s) 0 ltac:(lia)
-                  ltac:(rewrite split_lines_concat; reflexivity)) as Hat.
-    assert (Hcnt : length (split_lines ltb s) < S (length s)).
-    { pose proof (lines_count cfg s _ _ Hat). lia. }
-    unfold match_by_line.
-    destruct (is_line_by_line_fast cfg M c0) eqn:Efast.
-    - unfold match_by_line_fast.
-      pose proof (conv_fast_loop cfg M true K (fun c => match_by_line_slow cfg M K true c s) s
-                    (S (S (length s))) c0) as Hconv.
-      destruct (inv_lines (S (S (length s))) (split_lines ltb s) c0 g_init [] HR0 Hm0 eq_refl Hat
-                  (Forall_nil _) Hp0 (fun _ => or_introl eq_refl) (fun _ => eq_refl) ltac:(lia))
-        as (b & c' & Hrun & Hfin & Hb).
-      rewrite Hrun in Hconv.
-      exists b, c'. split; [|split; assumption].
-      destruct (fast_loop cfg M K true (S (S (length s))) c0 s) as [[| |] c1|c1|]; cbn [conv] in Hconv;
-        try discriminate; try (injection Hconv as -> ->; reflexivity).
-      exact Hconv.
-    - unfold match_by_line_slow. change (pos c0) with 0.
-      exact (slow_loop_lines cfg M Hbin s (split_lines ltb s) c0 g_init 0 (S (length s)) Hat
-               (conj Hp0 (conj Hm0 HR0)) eq_refl eq_refl Hcnt).
+      exists true, (set_pos c' (length s)). split; [reflexivity|].
+      unfold mbl_post. split. { unfold Rfin. cbn [pos log bin_off set_pos]. rewrite Q5'. auto. }
+      split. { intros _. split; [exact Q5'|]. split; [exact Q6|].
+               unfold tailok. cbn [last_line_visited pos set_pos]. rewrite (Q9 ltac:(discriminate)). split; [lia|right; reflexivity]. }
+      split; [discriminate|].
+      intros _ Hall. apply Forall_app in Hall as [_ Hall].
+      split; [cbn [pos set_pos]; rewrite Q5'; reflexivity|].
+      split; [cbn [has_matched set_pos]; rewrite Q2; symmetry; apply Q7; discriminate|].
+      apply R0_set_pos. fold gf in Q10. exact (Q10 Hall).
   Qed.
 End FastInv.
+
+
+(* ---------------------------------------------------------------------------------------------
+   One call of match_by_line, whichever path is_line_by_line_fast selects, on a buffer that is a
+   window of a stream: from a state related to the reference state g, over all the lines ls that
+   the buffer holds from the scan position on. *)
+Section MBL.
+  Variable cfg : config.
+  Variable M : matcher.
+  Hypothesis Hbin : c_binary cfg = BNone.
+  Variable s : bytes.
+  Variable A base : nat.
+  Variable bflag : bool.
+  Notation ltb := (lt_byte (c_lt cfg)).
+  Notation K := (fun _ : nat => Continue).
+  Notation gstep := (g_step cfg (m_is_match M)).
+  (* the contract of find_by_line_fast is only needed if the fast path can be taken at all *)
+  Hypothesis Hfind : (exists c, is_line_by_line_fast cfg M c = true) -> find_spec cfg M s.
+
+  Lemma match_by_line_sim c g ls :
+    R cfg s A base c g -> g_stopped g = false -> lines_at cfg s ls (pos c) -> (ls <> [] -> bnd cfg s (pos c)) ->
+    exists b c', match_by_line cfg M K bflag c s = OK b c' /\
+                 mbl_post cfg s A base ls b c' (fold_left gstep ls g).
+  Proof.
+    intros HR Hns Hat Hbnd.
+    pose proof HR as (Rpos & Rmatched & HR0).
+    assert (Hoff : g_off g = A + pos c) by lia.
+    pose proof (lines_count cfg s ls (pos c) Hat) as Hcnt.
+    unfold match_by_line.
+    destruct (is_line_by_line_fast cfg M c) eqn:Efast.
+    - assert (Hnopt : c_passthru cfg = false).
+      { unfold is_line_by_line_fast in Efast. destruct (c_passthru cfg); [discriminate|reflexivity]. }
+      pose proof (Hfind (ex_intro _ c Efast)) as Hfind'.
+      unfold match_by_line_fast.
+      pose proof (conv_fast_loop cfg M bflag K (fun c => match_by_line_slow cfg M K bflag c s) s
+                    (S (S (length s))) c) as Hconv.
+      assert (Hex : exists b c', fast_then cfg M bflag K (fun c => match_by_line_slow cfg M K bflag c s)
+                                   (S (S (length s))) c s = OK b c' /\
+                                 mbl_post cfg s A base ls b c' (fold_left gstep ls g)).
+      { destruct (c_invert cfg) eqn:Einv.
+        - exact (inv_lines cfg M Hbin s A base bflag Hfind' Einv Hnopt (S (S (length s))) ls c g [] (pos c)
+                   HR0 Rmatched Hns Hoff Hat (Forall_nil _) ltac:(cbn; lia) Hbnd (fun _ => eq_refl) ltac:(lia)).
+        - exact (fast_lines cfg M Hbin s A base bflag Hfind' Einv Hnopt (S (S (length s))) ls c g (pos c)
+                   Hat Hbnd HR Hoff Hns ltac:(lia)). }
+      destruct Hex as (b & c' & Hrun & Hpost).
+      rewrite Hrun in Hconv.
+      exists b, c'. split; [|exact Hpost].
+      destruct (fast_loop cfg M K bflag (S (S (length s))) c s) as [[| |] c1|c1|]; cbn [conv] in Hconv;
+        try discriminate; try (injection Hconv as -> ->; reflexivity).
+      exact Hconv.
+    - unfold match_by_line_slow.
+      exact (slow_loop_lines cfg M Hbin s A base bflag ls c g (pos c) (S (length s)) Hat HR Hoff Hns ltac:(lia)).
+  Qed.
+End MBL.
+
+(* ------------------------------------------------------------------ SliceByLine::run: the buffer is
+   the whole input *)
+Section Slice.
+  Variable cfg : config.
+  Variable M : matcher.
+  Hypothesis Hbin : c_binary cfg = BNone.
+  Variable s : bytes.
+  Notation ltb := (lt_byte (c_lt cfg)).
+  Notation K := (fun _ : nat => Continue).
+  Notation gstep := (g_step cfg (m_is_match M)).
+
+  Lemma slice_run_assembly :
+    let c0 := set_log (core_new cfg) [EBegin] in
+    let gf := fold_left gstep (split_lines ltb s) g_init in
+    (s <> [] -> exists b c', match_by_line cfg M K true c0 s = OK b c' /\ Rfin 0 c' gf /\ (b = true -> g_off gf = length s)) ->
+    slice_by_line_run cfg M K s = RunOk (grep_ref cfg (m_is_match M) s).
+  Proof.
+    intros c0 gf Hmbl.
+    unfold slice_by_line_run. rewrite emit_K.
+    change (log (core_new cfg)) with (@nil event). fold c0.
+    rewrite (detect_binary_K cfg Hbin) by reflexivity.
+    unfold grep_ref, g_run. fold gf.
+    assert (Hfinish : forall c1, pos c1 = g_off gf -> log c1 = g_out gf ++ [EBegin] -> bin_off c1 = None ->
+              finish K c1 (byte_count c1) = RunOk (EBegin :: rev (g_out gf) ++ [EFinish (g_off gf) None])).
+    { intros c1 H1 H2 H3. unfold finish, byte_count. rewrite H3, H1, H2.
+      cbn [rev]. rewrite rev_app_distr. cbn [rev app]. reflexivity. }
+    cbn [slice_loop].
+    destruct (Nat.leb_spec (length s) (pos c0)) as [Hle|Hgt].
+    - cbn [c0 pos set_log core_new] in Hle.
+      assert (Hs0 : s = []) by (destruct s; [reflexivity|cbn in Hle; lia]).
+      unfold gf. rewrite Hs0. cbn. reflexivity.
+    - destruct Hmbl as (b & c' & Hrun & (Fpos & Flog & Fbin) & Hb).
+      { intro E. rewrite E in Hgt. cbn in Hgt. lia. }
+      cbn [Nat.add] in Fpos.
+      rewrite Hrun. destruct b.
+      + cbn [slice_loop].
+        destruct (Nat.leb_spec (length s) (pos c')) as [_|Hlt]; [|rewrite Fpos, (Hb eq_refl) in Hlt; lia].
+        apply Hfinish; auto.
+      + apply Hfinish; auto.
+  Qed.
+
+  Hypothesis Hfind : find_spec cfg M s.
+
+  Theorem slice_eq_ref_any_proof :
+    slice_by_line_run cfg M K s = RunOk (grep_ref cfg (m_is_match M) s).
+  Proof.
+    apply slice_run_assembly. intros Hne.
+    set (c0 := set_log (core_new cfg) [EBegin]).
+    pose proof (R_init cfg s) as HR0. fold c0 in HR0.
+    pose proof (lines_at_shape cfg s _ (split_lines_shape ltb s) 0 ltac:(lia)
+                  ltac:(rewrite split_lines_concat; reflexivity)) as Hat.
+    destruct (match_by_line_sim cfg M Hbin s 0 0 true (fun _ => Hfind) c0 g_init (split_lines ltb s) HR0 eq_refl Hat
+                (fun _ => or_introl eq_refl)) as (b & c' & Hrun & Hfin & Htrue & _).
+    exists b, c'. split; [exact Hrun|]. split; [exact Hfin|].
+    intro Hb. destruct (Htrue Hb) as (Ho & _). exact Ho.
+  Qed.
+End Slice.
 
 (* every configuration: passthru forces the slow path; otherwise the fast or the slow path *)
 Theorem slice_eq_ref_proof :
   forall (cfg : config) (M : matcher), c_binary cfg = BNone ->
   forall s : bytes, find_spec cfg M s ->
   slice_by_line_run cfg M (fun _ => Continue) s = RunOk (grep_ref cfg (m_is_match M) s).
-Proof.
-  intros cfg M Hbin s Hfind.
-  destruct (c_passthru cfg) eqn:Ept.
-  - apply slice_slow_eq_ref_proof; [exact Hbin|].
-    intro c. unfold is_line_by_line_fast. now rewrite Ept.
-  - destruct (c_invert cfg) eqn:Einv.
-    + apply slice_eq_ref_invert_proof; assumption.
-    + apply slice_eq_ref_noninvert_proof; assumption.
-Qed.
+Proof. exact slice_eq_ref_any_proof. Qed.
